@@ -590,7 +590,7 @@ def _wmpt_ops(events):
     for e in events:
         op = e["op"]
         if op in ("update", "updel", "delete"):
-            ops.append(dict(op=op, k=e["k"], v=e.get("v", "")))
+            ops.append(dict(op=op, k=e["k"], v=e.get("tok", e.get("v", ""))))
         elif op == "commitbegin":
             ops.append(dict(op="commit", level=e["level"]))
         elif op == "gcbegin":
@@ -599,7 +599,8 @@ def _wmpt_ops(events):
             ops.append(dict(op=op))
         elif op == "rolledback":
             ops.append(dict(op=e["how"]))
-    return dict(mode="replay", ops=ops)
+    r = ([e for e in events if e["op"] == "reset"] or [{}])[0]
+    return dict(mode="replay", uni=r.get("uni", ""), sub=r.get("sub") or [], scale=r.get("scale", 0), ops=ops)
 
 
 WMPT = dict(
@@ -674,8 +675,9 @@ PROOF = dict(
 def _wpath_ops(events):
     r = [e for e in events if e["op"] == "reset"][0]
     x = [e for e in events if e["op"] == "export"][0]
-    ops = [dict(op=e["op"], k=e["k"], v=e.get("v", ""), level=0) for e in events if e["op"] in ("update", "delete")]
-    return dict(init=[[i[0], i[1]] for i in r["init"]], level=r["level"], req=x["req"], big=False, ops=ops)
+    ops = [dict(op=e["op"], k=e["k"], v=e.get("tok", e.get("v", "")), level=0) for e in events if e["op"] in ("update", "delete")]
+    return dict(init=[[i[0], i[1]] for i in r["init"]], level=r["level"], req=x["req"], big=False, ops=ops,
+                uni=r.get("uni", ""), sub=r.get("sub") or [], scale=r.get("scale", 0))
 
 
 WPATH = dict(
